@@ -310,6 +310,12 @@ def oracle(sc, obs):
         # (bare LF etc.) fall back to the methods mitmproxy recorded (the policy never edits HEAD-ness)
         methods = [m.method for m in cp.msgs]
         methods += [f.request.data.method for f in myflows[len(methods):]]
+        if cp.status == "ambiguous" and len(myflows) <= len(cp.msgs):
+            # a message both P and mitmproxy refuse: the client still expects an answer to the method it sent, which
+            # is the first token of the refused request line (an error answer to HEAD carries no body)
+            tok = cp.rest.lstrip(b"\r\n").split(b"\n", 1)[0].split(None, 1)[:1]
+            if tok:
+                methods.append(tok[0].strip())
         rp = P.parse_responses(c.received, methods + [b"GET"] * 4, c.proxy_closed)
         if rp.status == "ambiguous":
             prev = "none"
